@@ -24,6 +24,7 @@ def build_obligations(spec, vocab, inst):
     fn = extract.find_function(spec.file, spec.qualname, spec.setter)
     ex = Executor(spec, vocab, inst)
     ex.fn_line = fn.lineno
+    ex.register_loops(fn, "<main>")
     st = State(vocab)
     a = spec.setup(st, inst)
     ex.a = a
@@ -271,5 +272,24 @@ def verify_unit(job):
             s.add(z3.Not(ob.goal))
             r["smt2_size"] = len(s.to_smt2())
         base["results"].append(r)
+    # vacuity probe for contexts with quantified assumptions (which the cover checks leave out): per path, the richest assumption
+    # set must NOT prove False.  `unsat` = contradictory contract/invariant/assumed callee contract -> every proof on that path is void.
+    probes = {}
+    for ob in ex.obligations:
+        if ob.expect == "sat" or not any(z3.is_quantifier(c) for c in ob.assumptions):
+            continue
+        cur = probes.get(ob.path)
+        if cur is None or len(ob.assumptions) > len(cur.assumptions):
+            probes[ob.path] = ob
+    for path, ob in probes.items():
+        sv = z3.Solver()
+        sv.set("timeout", int(opts.get("probe_ms", 1500)))
+        for c in ob.assumptions:
+            sv.add(c)
+        tp = time.time()
+        rv = str(sv.check())
+        base["results"].append({"status": "vacuous" if rv == "unsat" else "covered", "backend": "z3", "time": time.time() - tp, "model": None,
+                                "oid": f"{spec.prop}/{spec.short}/cover#no-contradiction", "kind": "cover", "tag": "aux", "path": path,
+                                "goal": "the assumptions of this path (preconditions, invariants, callee contracts, axioms) do not prove False"})
     base["wall"] = time.time() - t0
     return base
